@@ -27,14 +27,48 @@ SWEEPS = {
 CELL_PROPS = ('C01', 'C02', 'C03', 'C09', 'C10', 'C11', 'C12', 'C13', 'C15', 'C16', 'C17', 'C19')
 
 
+CRASH_RCS = (-6, -11, -4, -7, 134, 139)   # SIGABRT (Rust's stack-overflow handler, abort()), SIGSEGV, SIGILL, SIGBUS
+
+
 def sweep(binpath, args, timeout=900):
     rc, out, err = native.run(binpath, ['sweep'] + args, timeout=timeout)
+    if rc in CRASH_RCS:
+        # the real code took the whole process down (unbounded recursion, abort): that is not 'returning normally'
+        at = [l for l in err.split('\n') if l.startswith('AT ')]
+        why = [l for l in err.split('\n') if l and not l.startswith('AT ')]
+        return 'FAILS crash %s rc=%d at=%s :: %s' % ('-'.join(args), rc, (at[-1][3:].replace(' ', ',') if at else '?'), ' '.join(why)[-300:])
     return out.strip().split('\n')[-1] if out.strip() else ('ERROR ' + err[-300:])
 
 
 def hit_from_sweep(prop, binpath, args, line):
     # line: FAILS kanicex <scenario> <values...>   |   FAILS soak PANIC: <message>
     parts = line.split()
+    if parts[1] == 'crash':
+        cmd = ['sweep'] + list(args)
+        desc = line
+        at = parts[4][3:] if len(parts) > 4 and parts[4].startswith('at=') else '?'
+        if args == ['total'] and at != '?':
+            # narrow the beacon (layout, form, key) down to the modifier set and mode that kill the process
+            l, f, k = at.split(',')
+            for mode in (0, 1):
+                for mods in range(512):
+                    c = ['kanicex', 'layout_total', l, f, k, str(mods), str(mode)]
+                    rc, out, err = native.run(binpath, c)
+                    if rc in CRASH_RCS:
+                        cmd = c
+                        desc = 'scenario layout_total(%s): the process dies (rc=%d): %s' % (', '.join(c[2:]), rc, err[-200:])
+                        break
+                if cmd[0] == 'kanicex':
+                    break
+        return {
+            'obligation': 'standin/sweep-%s' % '-'.join(args),
+            'text': 'native sweep `%s`: the real code must return normally' % ' '.join(args),
+            'extra': {
+                'counterexample': {'found_by': 'native sweep `replayer sweep %s` (the replayer process was killed by the real code)' % ' '.join(args), 'description': desc,
+                                   'scenario': cmd[1] if cmd[0] == 'kanicex' else 'sweep', 'values': cmd[2:] if cmd[0] == 'kanicex' else list(args)},
+                'native_replay': {'cmd': cmd, 'output': desc, 'reproduced': True},
+            },
+        }
     if parts[1] == 'longrun':
         return {
             'obligation': 'standin/sweep-longrun-%s' % args[1],
